@@ -51,6 +51,9 @@ class Gen:
         self.leaf_names = [n for n in self.names if self.rows[n]["kind"] not in ("Grouped", "unmodelled", "DiameterURI")]
         self.grouped_names = [n for n in self.names if self.rows[n]["kind"] == "Grouped"]
         self.hits = {}
+        self.build = True          # construct the Python objects (False: descriptors only, for wire images)
+        self.flag_mode = "mp"      # "mp": M/P overrides; "all": any flag byte consistent with the V bit
+        self.override = 0.2
 
     # ---------------------------------------------------------------- values
     def rbytes(self, n):
@@ -127,19 +130,22 @@ class Gen:
         raise KeyError(k)
 
     def m_p_flags(self, base):
-        """a flag byte with the same V bit and arbitrary M/P (reserved bits clear)"""
+        """a flag byte with the same V bit and arbitrary M/P (reserved bits clear unless flag_mode == 'all')"""
+        if self.flag_mode == "all":
+            return (base & 0x80) | self.rng.choice([0x00, 0x20, 0x40, 0x60, 0x7f, 0x01, 0x10, self.rng.randrange(128)])
         return (base & 0x80) | self.rng.choice([0x00, 0x20, 0x40, 0x60])
 
     # ---------------------------------------------------------------- trees
-    def leaf(self, name=None, override=0.2):
+    def leaf(self, name=None):
         name = name or self.rng.choice(self.leaf_names)
         row = self.rows[name]
         val, toks = self.value(row)
-        obj = construct(lambda: self.classes[name](val))
+        obj = construct(lambda: self.classes[name](val)) if self.build else None
         fl = "-"
-        if self.rng.random() < override and not isinstance(obj, Failed):
+        if self.rng.random() < self.override and not isinstance(obj, Failed):
             f = self.m_p_flags(row["flags"])
-            obj.flags = f
+            if obj is not None:
+                obj.flags = f
             fl = str(f)
         self.hit(name, row["kind"])
         return obj, ["D", name, fl] + toks
@@ -152,8 +158,10 @@ class Gen:
         n = r.choice([0, 1, 2, 3, 4, 5, 6, 7, 8, 9, 15, 16, 17, 40])
         data = self.rbytes(n)
         # the generic constructor's conversions: b"" / None stay, other bytes as is
+        if self.flag_mode == "all":
+            flags = (0x80 if vendor is not None else 0) | r.randrange(128)
         from bromelia.base import DiameterAVP
-        obj = DiameterAVP(code=code, vendor_id=vendor, flags=flags, data=(data if data or r.random() < 0.5 else None))
+        obj = DiameterAVP(code=code, vendor_id=vendor, flags=flags, data=(data if data or r.random() < 0.5 else None)) if self.build else None
         self.hit("generic", "generic")
         return obj, ["X", str(code), str(flags), "-" if vendor is None else str(vendor), data.hex() or "-"]
 
@@ -180,11 +188,12 @@ class Gen:
             kids.append(o)
             ktoks += t
         bad = [k for k in kids if isinstance(k, Failed)]
-        obj = bad[0] if bad else construct(lambda: cls(kids))
+        obj = (bad[0] if bad else construct(lambda: cls(kids))) if self.build else None
         fl = "-"
-        if r.random() < 0.15 and not isinstance(obj, Failed):
+        if r.random() < self.override and not isinstance(obj, Failed):
             f = self.m_p_flags(row["flags"])
-            obj.flags = f
+            if obj is not None:
+                obj.flags = f
             fl = str(f)
         self.hit(name, "Grouped")
         return obj, ["G", name, fl, str(len(kids))] + ktoks
@@ -213,7 +222,7 @@ class Gen:
         r = self.rng
         s = r.choice(["aaa://host.example.com", "aaas://host.example.com:3868;transport=tcp",
                       "aaa://h1.realm.org;transport=sctp;protocol=diameter", "aaa://abc"])
-        obj = self.classes[name](s)
+        obj = self.classes[name](s) if self.build else None
         self.hit(name, "DiameterURI")
         # the driver has no URI model: described as the generic content it must serialise to
         row = self.rows[name]
